@@ -15,6 +15,22 @@ class TaskAnchors:
         self.ctx = ctx
         self.a = ctx.a
         self.an = an
+        self.finalizer_partial = None
+
+    def finalizer_name_for(self, outer_name: str) -> str:
+        """Name under which a variable of start_service_task is known inside the finalizer
+        (identical for a closure; the bound parameter for a partial)."""
+        F = self.finalizer
+        if self.finalizer_partial is None:
+            return outer_name
+        params = [p for p in F.params]
+        for i, arg in enumerate(self.finalizer_partial.args[1:]):
+            if isinstance(arg, ast.Name) and arg.id == outer_name and i < len(params):
+                return params[i]
+        for kw in self.finalizer_partial.keywords:
+            if isinstance(kw.value, ast.Name) and kw.value.id == outer_name and kw.arg:
+                return kw.arg
+        return outer_name
 
     @cached_property
     def start_service_task(self) -> FuncInfo:
@@ -28,8 +44,16 @@ class TaskAnchors:
     def finalizer(self) -> FuncInfo:
         S = self.start_service_task
         for call, c in self.a.func_calls(S):
-            if c.kind == "func" and c.func is self.register and call.args and isinstance(call.args[0], ast.Name) and call.args[0].id in S.nested:
-                return S.nested[call.args[0].id]
+            if c.kind == "func" and c.func is self.register and call.args:
+                arg = call.args[0]
+                if isinstance(arg, ast.Name) and arg.id in S.nested:
+                    return S.nested[arg.id]
+                # functools.partial(<module-level coroutine>, handle, name, action)
+                if isinstance(arg, ast.Call) and call_name(arg) == "partial" and arg.args and isinstance(arg.args[0], ast.Name):
+                    r = self.a.r.resolve_name(S, arg.args[0].id)
+                    if isinstance(r, FuncInfo):
+                        self.finalizer_partial = arg
+                        return r
         # not registered through the normal route: the nested coroutine that deals with the task handle
         for nf in S.nested.values():
             if any(isinstance(c, ast.Call) and call_name(c) in ("wait_finished", "cancel") for c in walk_own(nf.node)):
@@ -170,21 +194,43 @@ def runner_rules(ctx, ta: TaskAnchors, rule: str, handler_rule: str | None = Non
         rep.check(hr, len(hcalls) == 1, R, h, "the exception handler is consulted at exactly one site", f"the exception handler is called at {len(hcalls)} sites")
         for c in hcalls:
             rep.check(hr, len(c.args) == 1 and isinstance(c.args[0], ast.Name) and c.args[0].id == h.name, R, c, "the handler receives the escaping exception", "the handler is not given the escaping exception")
-        rets = [cfg.nodes[i] for i in region if cfg.nodes[i].kind == "stmt" and isinstance(cfg.nodes[i].ast, ast.Return)]
-        reraise = [cfg.nodes[i] for i in region if cfg.nodes[i].kind == "stmt" and isinstance(cfg.nodes[i].ast, ast.Raise) and cfg.nodes[i].ast.exc is None]
+        reraise = [cfg.nodes[i] for i in region if cfg.nodes[i].kind == "stmt" and isinstance(cfg.nodes[i].ast, ast.Raise) and (cfg.nodes[i].ast.exc is None or (isinstance(cfg.nodes[i].ast.exc, ast.Name) and cfg.nodes[i].ast.exc.id == h.name))]
         rep.check(hr, bool(reraise), R, h, "an unhandled exception is re-raised", "the handler never re-raises: exceptions escaping a task vanish")
-        for r in rets:
-            ct = controlling_tests(cfg, r)
-            ok = False
-            for t, lab in ct:
-                if lab == "t" and any(isinstance(x, ast.Call) and isinstance(x.func, ast.Name) and x.func.id == handler_param for x in ast.walk(t.ast)):
-                    # conjunction "handler is not None and handler(exc)"
-                    ok = not any(isinstance(x, ast.BoolOp) and isinstance(x.op, ast.Or) for x in ast.walk(t.ast)) and not any(isinstance(x, ast.UnaryOp) and isinstance(x.op, ast.Not) for x in ast.walk(t.ast))
-            rep.check(hr, ok, R, r.ast, "the exception is swallowed only when the handler returned a truthy value", "the exception can be swallowed without a truthy verdict of the exception handler")
-        # every other path re-raises: normal exit not reachable from the handler except via those returns
-        others = cfg.reach([hn[0].id], avoid=[r.id for r in rets], edge_ok=lambda s, d, lab: lab not in ("e", "h"))
-        after_try = [i for i in others if cfg.nodes[i].kind == "stmt" and isinstance(cfg.nodes[i].ast, ast.Raise)]
-        rep.check(hr, bool(after_try) and cfg.exit not in cfg.reach([hn[0].id], avoid=[r.id for r in rets] + [x.id for x in reraise], edge_ok=lambda s, d, lab: lab not in ("e", "h")), R, h, "every path of the handler that does not swallow re-raises", "the handler can fall through without re-raising")
+        # Swallowing = leaving the handler without raising.  Every such path must pass the
+        # TRUTHY outcome of the single `handler(exc)` call (whatever the surrounding shape:
+        # `if h is not None and h(exc): return`, or guard clauses `if h is None: raise` /
+        # `if not h(exc): raise` followed by falling through).
+        truthy_edges = []  # (test node id, label taken when handler(exc) was truthy)
+        for i in region:
+            t = cfg.nodes[i]
+            if t.kind != "test":
+                continue
+            e, pol = t.ast, "t"
+            while isinstance(e, ast.UnaryOp) and isinstance(e.op, ast.Not):
+                e, pol = e.operand, ("f" if pol == "t" else "t")
+            parts = e.values if isinstance(e, ast.BoolOp) and isinstance(e.op, ast.And) else [e]
+            if isinstance(e, ast.BoolOp) and isinstance(e.op, ast.Or):
+                continue  # handled below as "not swallow-proof"
+            for part in parts:
+                pe, pp = part, pol
+                while isinstance(pe, ast.UnaryOp) and isinstance(pe.op, ast.Not):
+                    pe, pp = pe.operand, ("f" if pp == "t" else "t")
+                if isinstance(pe, ast.Call) and isinstance(pe.func, ast.Name) and pe.func.id == handler_param:
+                    # the whole test is true only if this conjunct is true
+                    if isinstance(e, ast.BoolOp):
+                        if pp == pol == "t":
+                            truthy_edges.append((t.id, "t"))
+                    else:
+                        truthy_edges.append((t.id, pp))
+
+        def no_truthy(src, dst, lab):
+            if lab in ("e", "h"):
+                return False
+            return (src.id, lab) not in truthy_edges
+
+        normal_ends = {cfg.exit}
+        leak = cfg.reach([hn[0].id], edge_ok=no_truthy)
+        rep.check(hr, bool(truthy_edges) and not (leak & normal_ends), R, h, "the exception is swallowed only after the handler returned a truthy value (every other path re-raises)", "the exception can be swallowed without a truthy verdict of the exception handler (or the handler is never asked)")
 
 
 def handle_isolation(ctx, ta: TaskAnchors, rule: str) -> None:
@@ -213,12 +259,13 @@ def run(ctx) -> None:
     ta = TaskAnchors(ctx, an)
     S = ta.start_service_task
     F = ta.finalizer
-    hv = ta.handle_var
+    outer_hv = ta.handle_var
     scfg = a.cfg(S)
     fcfg = a.cfg(F)
-    action = "teardown_action"
-    if action not in S.params:
+    if "teardown_action" not in S.params:
         raise AnalysisError("anchor-missing teardown_action parameter")
+    hv = ta.finalizer_name_for(outer_hv)
+    action = ta.finalizer_name_for("teardown_action")
 
     # ------------------------------------------------------------------ finalizer nodes
     def calls_in(n: Node):
@@ -315,7 +362,8 @@ def run(ctx) -> None:
         btw = scfg.between([sp.id], [rn.id])
         cps = [r for i in btw for r in a.node_checkpoints(S, scfg, scfg.nodes[i])]
         rep.check("C08.R3", not cps, S, rcall, "no checkpoint between the start of the task and the registration of its finalizer", f"a checkpoint ({cps[0] if cps else ''}) separates starting the task from registering its finalizer: a teardown in between would not stop the task")
-        rep.check("C08.R3", rcall.args and isinstance(rcall.args[0], ast.Name) and rcall.args[0].id == F.name and dotted(rcall.func.value) == "self", S, rcall, "the finalizer goes on this context's append-only LIFO stack (C01.R7): it runs before every callback registered earlier", "the finalizer is not registered on the owning context's teardown stack")
+        reg_arg_ok = rcall.args and ((isinstance(rcall.args[0], ast.Name) and rcall.args[0].id == F.name) or (rcall.args[0] is ta.finalizer_partial))
+        rep.check("C08.R3", bool(reg_arg_ok) and dotted(rcall.func.value) == "self", S, rcall, "the finalizer goes on this context's append-only LIFO stack (C01.R7): it runs before every callback registered earlier", "the finalizer is not registered on the owning context's teardown stack")
         rep.check("C08.R3", scfg.all_paths_pass(sp.id, [scfg.exit], [rn.id], edge_ok=normal), S, rcall, "every successful start registers the finalizer", "a successful start can return without registering the finalizer")
     # the teardown stack itself is append-only / LIFO: shared obligation with C01
     from .common import include_rules
@@ -330,7 +378,7 @@ def run(ctx) -> None:
     rep.check("C08.R4", not passed, S, ta.spawn_call, "service tasks get no exception handler: an escaping exception takes the application down", "service tasks are started with an exception handler that can swallow crashes")
     # the owner context and the handle are passed to the runner
     sargs = [ast.unparse(x) for x in ta.spawn_call.args]
-    rep.check("C08.R4", len(sargs) >= 4 and sargs[2] == "self" and sargs[3] == hv, S, ta.spawn_call, "the runner receives the owning context and this task's handle", f"the runner is started with ({', '.join(sargs)})")
+    rep.check("C08.R4", len(sargs) >= 4 and sargs[2] == "self" and sargs[3] == outer_hv, S, ta.spawn_call, "the runner receives the owning context and this task's handle", f"the runner is started with ({', '.join(sargs)})")
 
     # ------------------------------------------------------------------ R5 hosted by the root task group
     init = an.ctx_method("__init__")
@@ -356,7 +404,7 @@ def run(ctx) -> None:
     rep.check("C08.R5", all(f in (init, aenter) for f in all_creates), S, None, "the task group attribute is assigned only in __init__/__aenter__", "the task group attribute is reassigned elsewhere")
 
     # ------------------------------------------------------------------ R6 validation first
-    vtests = [t for t in scfg.live_nodes() if t.kind == "test" and action in names_in(t.ast) and "callable" in ast.unparse(t.ast)]
+    vtests = [t for t in scfg.live_nodes() if t.kind == "test" and "teardown_action" in names_in(t.ast) and "callable" in ast.unparse(t.ast)]
     if not vtests:
         rep.violate("C08.R6", S, S.node, "an invalid teardown_action is not rejected")
     elif spawn_nodes:
